@@ -166,7 +166,7 @@ pub fn h_skip_while() {
         inp.skip_while(|t| *t < thr);
         let s = snap(inp);
         let t0 = if s0.pos < s0.len { Some(inp.cache.tok_at(s0.pos)) } else { None };
-        let t1 = if s0.pos < s0.len && s0.pos + 1 < s0.len { Some(inp.cache.tok_at(s0.pos + 1)) } else { None };
+        let t1 = if s0.pos < s0.len && 1 < s0.len - s0.pos { Some(inp.cache.tok_at(s0.pos + 1)) } else { None };
         let m0 = t0.map(|t| t < thr).unwrap_or(false);
         let m1 = t1.map(|t| t < thr).unwrap_or(false);
         let want = if !m0 { 0 } else if !m1 { 1 } else { 2 };
